@@ -141,6 +141,7 @@ func (c *tcpSvcConverter) Sync() {
 		backend.SSL.Filename = crtfile.Filename
 		backend.SSL.CAFilename = cafile.Filename
 		backend.SSL.CRLFilename = crlfile.Filename
+		c.haproxy.TCPBackends().SetContentHash(publicport, crtfile.SHA1Hash+cafile.SHA1Hash+crlfile.SHA1Hash)
 	}
 }
 
